@@ -7,7 +7,7 @@ import monitor_gen as mg
 
 MLS = ("monitor",)
 HARNESSES = ()
-THEOREMS = ["C18_sees_once", "C18_resumed_no_copy", "C18_filter_semantics", "C18_sees_once_refuted", "C18_never_addressee",
+THEOREMS = ["C18_sees_once", "C18_resumed_no_copy", "C18_filter_semantics", "C18_index_exact", "C18_lookup_counts", "C18_sees_once_refuted", "C18_never_addressee",
             "C18_never_addressee_refuted", "C18_nothing_routed_from_monitor", "C18_nothing_routed_from_monitor_refuted",
             "C18_never_addressee_routed_refuted", "C18_send_closes", "C18_send_closes_refuted", "C18_owns_nothing", "C18_loses_rules",
             "C18_no_pending_replies", "C18_switch_refused", "C18_switch_exact", "C18_switch_signals", "C18_switch_effect",
@@ -81,7 +81,7 @@ def classify(events, mtoks):
             for x, kd in zip(per[k], kinds[k]):
                 if kd == "C":
                     p = x.split("/")
-                    cl.add("copy-" + {"c": "call", "r": "reply", "e": "error", "s": "signal"}[p[0]] + ("-from-bus" if p[1] == "d" else ""))
+                    cl.add("copy-" + {"c": "call", "r": "reply", "e": "error", "s": "signal"}.get(p[0], "undefined-type") + ("-from-bus" if p[1] == "d" else ""))
                     if p[0] == "e" and p[7] == "1":
                         cl.add("copy-refusal")
                     if p[0] == "e" and p[7] in ("2", "3"):
@@ -203,7 +203,7 @@ def run(ctx):
                 samples.append({"events": " ".join(ev), "model": " ".join(mA[i][:6]) + " ..."})
     rep.coverage.update({
         "evaluations": 2 * n, "distinct_nontrivial": len(nontrivial),
-        "rule": "histories of 6-22 events after 2-4 connects over up to 7 raw clients: broadcast and unicast signals, method calls to unique / well-known / "
+        "rule": "histories of 6-22 events after 2-4 connects over up to 7 raw clients: broadcast and unicast signals, messages with an undefined type byte (5, 9, 255), method calls to unique / well-known / "
                 "ownerless names, to the driver and without destination, genuine and bogus replies and errors, interfaces refused by <deny send_interface> / "
                 "<deny receive_interface>, org.freedesktop.DBus.Peer, RequestName (queueing, DO_NOT_QUEUE) / ReleaseName, AddMatch, GetId, connects, "
                 "disconnects; connections under an unprivileged uid; messages to names with a service file (held for activation, released by a later "
@@ -230,7 +230,7 @@ def run(ctx):
     rep.assumptions = [
         "model coq/Monitor/Monitor.v is hand-written after bus/connection.c, bus/driver.c, bus/dispatch.c, bus/signals.c, bus/services.c; tied to the code by the correspondence run only",
         "every event is fully processed before the next one is written (round-trip barriers); concurrent writers are not explored",
-        "ordinary match rules never eavesdrop (AddMatch eavesdrop='true' is outside the model); match-rule keys modelled: type, sender, destination, interface, member",
+        "ordinary match rules never eavesdrop (AddMatch eavesdrop='true' is outside the model); match-rule keys modelled: type, sender, destination, interface, member; the rule pools of the matchmaker are sub-lists of one insertion-ordered list",
         "RequestName flags 0 and DO_NOT_QUEUE only; the caller is privileged (uid 0 = bus owner), so BecomeMonitor is never refused; no service activation files",
         "out-of-memory paths, max_replies_per_connection / outgoing-queue limits, unix fds, containers, SELinux/AppArmor are outside the model",
     ]
